@@ -98,7 +98,11 @@ def frozen_asserts():
 
 def assert_accepted(fz, fn, k, op):
     """an asserted precondition is accepted if it is frozen for this function, or follows from a frozen one (it is weaker)"""
-    have = fz.get(fn, [])
+    have = fz.get(fn)
+    if have is None:
+        # a function without an accepted precondition: a new assertion there may be a tautology (`debug_assert!` of an
+        # invariant) or a new precondition, which this rule cannot tell apart - not judged (DESIGN.md section 6)
+        return True
     if (k, op) in have:
         return True
     d = dict(k)
